@@ -436,7 +436,23 @@ def run(repo: Repo) -> Result:
                 if c.name not in handled or s not in handled[c.name]:
                     res.add("C19-FILTERS", c.qual, s, f"{c.qual}.{s} holds filters but _extract_filters has no `isinstance(expression, {c.name})` branch reading .{s}: filters applied there are not reported", ef.file, ef.line)
     res.ob("filters:name")
-    if "f.name" not in text(ef.node):
+    # every reported pair is (<filter>.name, Span(...)) with <filter> an item of a filters slot — in
+    # _extract_filters itself or in a private helper it hands the slot to
+    def reports_name(fn_node) -> bool:
+        for n in ast.walk(fn_node):
+            tup = None
+            if isinstance(n, (ast.GeneratorExp, ast.ListComp)) and isinstance(n.elt, ast.Tuple):
+                tup, var = n.elt, (n.generators[0].target.id if isinstance(n.generators[0].target, ast.Name) else None)
+            elif isinstance(n, (ast.For, ast.AsyncFor)) and isinstance(n.target, ast.Name):
+                for y in ast.walk(n):
+                    if isinstance(y, ast.Yield) and isinstance(y.value, ast.Tuple):
+                        tup, var = y.value, n.target.id
+            if tup is not None and var is not None and tup.elts and text(tup.elts[0]) == f"{var}.name":
+                return True
+        return False
+
+    helpers_ef = [repo.resolve_in(ef.module, callee_name(c)) for c in calls(ef.node) if isinstance(c.func, ast.Name) and callee_name(c) != ef.name and callee_name(c).startswith("_")]
+    if not (reports_name(ef.node) or any(hasattr(h, "node") and reports_name(h.node) for h in helpers_ef)):
         res.add("C19-FILTERS", ef.qual, "name", "_extract_filters must report f.name", ef.file, ef.line)
     if not _recurses_over_children(ef.node):
         res.add("C19-FILTERS", ef.qual, "recursion", "_extract_filters must recurse into expression.children()", ef.file, ef.line)
